@@ -38,6 +38,11 @@ def open_readonly(m, variant, root, budget):
     from twosigma.memento import StorageBackend
     data = os.path.join(root, "data")
     mb = budget / (1024.0 * 1024.0) if "cache" in variant else None
+    if variant.startswith("sepmeta"):
+        # metadata kept apart from the data
+        if "cfg" in variant:
+            return FilesystemStorageBackend(config={"path": data, "metadata_path": os.path.join(root, "meta"), "readonly": True}, memory_cache_mb=mb)
+        return FilesystemStorageBackend(path=data, metadata_path=os.path.join(root, "meta"), memory_cache_mb=mb, read_only=True)
     if variant.startswith("arg"):
         return FilesystemStorageBackend(path=data, memory_cache_mb=mb, read_only=True)
     if variant.startswith("cfg"):
@@ -51,19 +56,21 @@ def run_storage_level(m, scratch, rng, rep, n_hist, length, ids):
     from . import fnlib
     terms, metas = [], []
     total = 0
-    for variant in ("arg", "arg_cache", "cfg", "cfg_cache", "create"):
+    for variant in ("arg", "arg_cache", "cfg", "cfg_cache", "create", "sepmeta", "sepmeta_cfg_cache"):
         for h in range(n_hist):
             budget = rng.choice([4096, 2048])
             tag = "ro%s%d" % (variant, h)
             pre = c05.gen_history(rng, budget, rng.randint(4, 14), ids, allow_meta=True)
             pre = [o for o in pre if o[0] in ("memoize", "wmeta", "fcall")]
-            w = BD.Driver(m, scratch, "fs", budget, tag=tag)
+            w = BD.Driver(m, scratch, "fs_meta" if variant.startswith("sepmeta") else "fs", budget, tag=tag)
             pre_recs = [r for r in (w.apply(list(o)) for o in pre) if r is not None]
             snap = fnlib.tree_snapshot(w.root)
             ro_backend = open_readonly(m, variant, w.root, budget)
-            d = BD.Driver(m, scratch, "fs_cache" if "cache" in variant else "fs", budget, tag=tag, backend=ro_backend)
+            d = BD.Driver(m, scratch, ("fs_meta_cache" if "cache" in variant else "fs_meta") if variant.startswith("sepmeta") else ("fs_cache" if "cache" in variant else "fs"), budget, tag=tag, backend=ro_backend)
             d.last_memento = dict(w.last_memento)
             ops = c05.gen_history(rng, budget, rng.randint(5, length), ids, with_data_prob=0.5, meta_any=True) + c05.sweep_ops()[:20]
+            if not any(o[0] == "fall" for o in ops):
+                ops.insert(rng.randrange(len(ops) // 2, len(ops)), ["fall"])
             steps = []
             BD._AUDIT["log"] = []
             for i, op in enumerate(ops):
